@@ -361,14 +361,14 @@ namespace ratio
         { // a single atom exceeds the capacity of some resource: it can only be kept away from such resources..
             atom *atm = *overlapping_atoms.cbegin();
             expr a_tau = atm->get(TAU);
-            if (var_item *a_tau_itm = dynamic_cast<var_item *>(&*a_tau))
+            if (dynamic_cast<var_item *>(&*a_tau))
             {
                 arith_expr amount = atm->get(REUSABLE_RESOURCE_USE_AMOUNT_NAME);
-                for (const auto &val : get_solver().enum_value(a_tau_itm))
+                for (const auto &val : rr.get_instances()) // all the resources, including those which have already been forbidden..
                 {
-                    arith_expr capacity = static_cast<item *>(val)->get(REUSABLE_RESOURCE_CAPACITY);
+                    arith_expr capacity = val->get(REUSABLE_RESOURCE_CAPACITY);
                     if (get_solver().arith_value(amount) > get_solver().arith_value(capacity))
-                        add_resolver(*new forbid_resolver(*this, *atm, *static_cast<item *>(val)));
+                        add_resolver(*new forbid_resolver(*this, *atm, *val));
                 }
             }
             return;
